@@ -3,7 +3,7 @@
    key = first 32 hex digits of H(registry_text ps ++ "$$$" ++ inputs_text ns inputs)   (C12);
    the theorems below list what that text does not depend on. *)
 From Coq Require Import String Ascii List Bool Arith ZArith Permutation.
-From TC Require Import PyStr Value Dict Placeholder Repr Param Key Names Config Chain ReprProofs ChainProofs.
+From TC Require Import PyStr Value Dict Placeholder Repr Param Key Names Config Chain ReprProofs ChainProofs MountProofs.
 Import ListNotations.
 
 (* the order in which parameters are declared *)
@@ -138,3 +138,19 @@ Theorem C02_reference_names_mount_namespace_refuted :
   prefixed (Some (lit "w")) (lit "n::n") = lit "w::n::n".
 Proof. exact declared_name_taken_for_full. Qed.
 Print Assumptions C02_reference_names_mount_namespace_refuted.
+
+(* ... and K4 is the whole exception on the side of name qualification: for a declared name that does not start with the
+   namespace it is qualified under, the name it is looked up under in the pipeline mounted as `w` is `w::` followed by
+   the name it is looked up under in the pipeline built directly (at the top level, and inside a namespace P) *)
+Theorem C02_mount_commutes_with_qualification : forall w q,
+  w <> [] -> starts_with (w ++ lit "::") q = false ->
+  prefixed (Some w) q = w ++ lit "::" ++ prefixed None q.
+Proof. exact mount_commutes_at_top. Qed.
+Print Assumptions C02_mount_commutes_with_qualification.
+
+Theorem C02_mount_commutes_with_qualification_nested : forall w P q,
+  w <> [] -> P <> [] ->
+  starts_with (P ++ lit "::") q = false -> starts_with ((w ++ lit "::" ++ P) ++ lit "::") q = false ->
+  prefixed (Some (w ++ lit "::" ++ P)) q = w ++ lit "::" ++ prefixed (Some P) q.
+Proof. exact mount_commutes_nested. Qed.
+Print Assumptions C02_mount_commutes_with_qualification_nested.
